@@ -14,6 +14,7 @@ import (
 	"runtime/debug"
 	"sort"
 	"strings"
+	"sync"
 	"time"
 
 	"verif/gen/gomutants"
@@ -200,10 +201,20 @@ func secondOrder(_ []seedPlan, seeds []gomutants.Seed) []kit.Space {
 			total += uint64(len(gomutants.Plan(m.Apply(seed.Src))))
 		}
 		sd := seed
+		// the plan of the intermediate source is cached: consecutive indices
+		// share their first mutation
+		var mu sync.Mutex
+		lastK, lastMid, lastPlan := -1, "", []gomutants.Mutant(nil)
 		locate := func(i uint64) (gomutants.Mutant, gomutants.Mutant, string) {
 			k := sort.Search(len(starts), func(k int) bool { return starts[k] > i }) - 1
-			mid := first[k].Apply(sd.Src)
-			second := gomutants.Plan(mid)[i-starts[k]]
+			mu.Lock()
+			if k != lastK {
+				lastK, lastMid = k, first[k].Apply(sd.Src)
+				lastPlan = gomutants.Plan(lastMid)
+			}
+			mid, plan := lastMid, lastPlan
+			mu.Unlock()
+			second := plan[i-starts[k]]
 			return first[k], second, second.Apply(mid)
 		}
 		sps = append(sps, kit.Space{
@@ -212,8 +223,8 @@ func secondOrder(_ []seedPlan, seeds []gomutants.Seed) []kit.Space {
 			NotInjective: true,
 			Eval: func(i uint64) kit.Outcome {
 				m1, m2, src := locate(i)
-				_ = m1 // the key names the second operator only: the first is in the witness
-				return judge(m2.Op, src)
+				_, _ = m1, m2 // the operators are in the witness: with two mutations the go/types error class names the defect
+				return judge("second-order", src)
 			},
 			Describe: func(i uint64) any {
 				m1, m2, _ := locate(i)
